@@ -16,7 +16,8 @@ ASSUMPTIONS = [
 ]
 CASES = {"quick": 480, "thorough": 6000}
 MIN_CASES = {"quick": 60, "thorough": 1500}
-REQUIRED_COUNTERS = ["trials_judged_by_contract", "layouts_judged", "movable_discs_checked", "fixed_modules_checked", "fixed_terminals_checked", "hard_modules_checked"]
+REQUIRED_COUNTERS = ["trials_judged_by_contract", "layouts_judged", "movable_discs_checked", "fixed_modules_checked", "fixed_terminals_checked", "hard_modules_checked", "layouts_after_earlier_queries"]
+REQUIRED_CLASSES = ["fixed0", "fixed1"]
 SOFT_DEADLINE = {"quick": 200, "thorough": 3300}
 
 _state = {"trials": []}
@@ -106,8 +107,15 @@ def generate(rng, tier, i):
         nets.append(e)
     order = list(mods)
     rng.shuffle(order)
-    return {"cls": f"fixed{min(nfix, 1)}", "W": W, "H": H, "netlist": {"Modules": {k: mods[k] for k in order}, "Nets": nets},
-            "n": rng.choice([1, 1, 3, 5]), "pyseed": rng.randrange(1 << 30)}
+    n = rng.choice([1, 1, 3, 5])
+    if rng.random() < 0.15:
+        # nfloorplans = 0: 'use the initial centres' (every module needs one); the discs must still end inside the die
+        n = 0
+        for name, m in mods.items():
+            if "area" in m and "center" not in m:
+                m["center"] = [round(rng.uniform(0, W), 3), round(rng.uniform(0, H), 3)]
+    return {"cls": f"fixed{min(nfix, 1)}" + ("_init" if n == 0 else ""), "W": W, "H": H, "netlist": {"Modules": {k: mods[k] for k in order}, "Nets": nets},
+            "n": n, "pyseed": rng.randrange(1 << 30), "query_first": rng.random() < 0.3}
 
 
 def directed():
@@ -135,6 +143,10 @@ def check(case, ctx):
         if m.is_hard and m.num_rectangles > 0:
             cx, cy = centroid(m.rectangles)
             pre[m.name] = {"centroid": (cx, cy), "offs": [(r.center.x - cx, r.center.y - cy, r.shape.w, r.shape.h) for r in m.rectangles]}
+    if case.get("query_first"):
+        # a legitimate earlier use of the netlist (must not influence the placement)
+        ctx.call(lambda: (sp.num_rectangles, [m.area() for m in sp.modules], sp.num_edges))
+        ctx.count("layouts_after_earlier_queries")
     _state["trials"] = []
     random.seed(case["pyseed"])
     ok, res = ctx.call(sp.spectral_layout, _Shape(W, H), case["n"], False)
@@ -144,7 +156,7 @@ def check(case, ctx):
         return
     ctx.nontrivial(True)
     # ---- every trial, as seen by the contract on spectral_layout_die ---------------------------
-    if len(_state["trials"]) != case["n"]:
+    if len(_state["trials"]) != max(case["n"], 1):
         ctx.violation("trial_count", f"{len(_state['trials'])} trials observed, {case['n']} requested")
     for t in _state["trials"]:
         ctx.count("trials_judged_by_contract")
